@@ -790,7 +790,7 @@ impl DnsListenerHandler {
 
         let mut lbytes = [0u8; 2];
 
-        if sock.read(&mut lbytes).await.map_err(Error::RecvError)? != lbytes.len() {
+        if sock.read_exact(&mut lbytes).await.map_err(Error::RecvError)? != lbytes.len() {
             return Err(Error::ParseError("Failed to read length".into()));
         }
 
